@@ -70,6 +70,11 @@ Fixed == [
     s304     |-> S("h2", "GET", << EHead(S304, 304, << CL(5), Hdr("ETag", "etag", "\"x\"") >>) >>),
     s204j    |-> S("h2", "GET", << EHead(S204, 204, << >>), EJunk(2) >>),
     headcl   |-> S("h2", "HEAD", << EHead(OK200, 200, << CL(3), CT >>) >>),
+    \* bodiless although the head announces a chunked body (legal, common for HEAD)
+    headte   |-> S("h2", "HEAD", << EHead(OK200, 200, << TE, CT >>) >>),
+    s304te   |-> S("h2", "GET", << EHead(S304, 304, << TE >>) >>),
+    s204te   |-> S("h2", "GET", << EHead(S204, 204, << XA, TE >>) >>),
+    h1headte |-> S("h1", "HEAD", << EHead(OK200, 200, << TE >>) >>),
     \* interim responses
     i100cl   |-> S("h2", "GET", << EHead(S100, 100, << >>), EHead(OK200, 200, << CL(2) >>), EData(2) >>),
     i2ck     |-> S("h2", "GET", << EHead(S100, 100, << >>), EHead(S102, 102, << XA >>), EHead(OK200, 200, << TE >>) >> \o Plain(<< 2 >>)),
